@@ -57,6 +57,7 @@ func load(dir string) *pkg {
 		if skip {
 			continue
 		}
+		stripHooks(f)
 		p.files[n] = f
 		for _, d := range f.Decls {
 			switch d := d.(type) {
@@ -81,6 +82,37 @@ func load(dir string) *pkg {
 		}
 	}
 	return p
+}
+
+// stripHooks removes the `verifSched(…)` call statements so that the structural matchers see the
+// code as it is without the scheduling hook.
+func stripHooks(f *ast.File) {
+	ast.Inspect(f, func(n ast.Node) bool {
+		var list *[]ast.Stmt
+		switch b := n.(type) {
+		case *ast.BlockStmt:
+			list = &b.List
+		case *ast.CaseClause:
+			list = &b.Body
+		case *ast.CommClause:
+			list = &b.Body
+		}
+		if list != nil {
+			out := (*list)[:0]
+			for _, st := range *list {
+				if es, ok := st.(*ast.ExprStmt); ok {
+					if c, ok := es.X.(*ast.CallExpr); ok {
+						if id, ok := c.Fun.(*ast.Ident); ok && id.Name == "verifSched" {
+							continue
+						}
+					}
+				}
+				out = append(out, st)
+			}
+			*list = out
+		}
+		return true
+	})
 }
 
 func recvName(e ast.Expr) string {
